@@ -50,6 +50,12 @@ func (po pathOutcomes) only(want string) bool {
 }
 
 func pushOutcomes(p *Program, fn *ssa.Function, env map[ssa.Value]constant.Value) pathOutcomes {
+	return pathOutcomesWith(p, fn, env, nil)
+}
+
+// pathOutcomesWith: like pushOutcomes, with the events to collect given by the
+// caller (nil: pushes of the singletons).
+func pathOutcomesWith(p *Program, fn *ssa.Function, env map[ssa.Value]constant.Value, collect func(ssa.Instruction) (string, bool)) pathOutcomes {
 	truth := map[*ssa.Global]string{}
 	for obj, name := range singletonNames(p) {
 		for _, pk := range p.SSA.AllPackages() {
@@ -105,9 +111,14 @@ func pushOutcomes(p *Program, fn *ssa.Function, env map[ssa.Value]constant.Value
 			}
 		}
 		for _, ins := range b.Instrs {
+			if collect != nil {
+				if what, ok := collect(ins); ok {
+					pushed = append(append([]string{}, pushed...), what)
+				}
+			}
 			switch x := ins.(type) {
 			case *ssa.Call:
-				if cal := x.Call.StaticCallee(); cal != nil && cal.Name() == "Push" && len(x.Call.Args) == 2 {
+				if cal := x.Call.StaticCallee(); collect == nil && cal != nil && cal.Name() == "Push" && len(x.Call.Args) == 2 {
 					what := "other"
 					v := x.Call.Args[1]
 					if mi, ok := v.(*ssa.MakeInterface); ok {
